@@ -62,6 +62,8 @@ type PassPoolJ struct {
 	Taints   []string          `json:"taints"` // NoSchedule taints (key only)
 	// SoftTaints: PreferNoSchedule taints of the template (key only): a preference, not a constraint
 	SoftTaints []string `json:"soft_taints,omitempty"`
+	// MinTypes: the template carries the requirement instance-type Exists with minValues = MinTypes (0 = none)
+	MinTypes int `json:"min_types,omitempty"`
 	Types      []TypeJ  `json:"types"`
 	LimitCPU int               `json:"limit_cpu,omitempty"` // spec.limits.cpu, milli-cores (c19.reserved only; 0 = none)
 }
@@ -161,6 +163,8 @@ type PassIn struct {
 	Pods        []PassPodJ  `json:"pods"`
 	CPURequests int         `json:"cpu_requests"` // options.CPURequests: ceil(/1000) workers evaluate the templates
 	MaxTypes    int         `json:"max_types"`    // value given to scheduling.MaxInstanceTypes for the pass
+	// BestEffort: the operator option MinValuesPolicy is BestEffort (default Strict)
+	BestEffort bool `json:"best_effort,omitempty"`
 	Reps        int         `json:"reps"`         // the pass is repeated on fresh worlds; all repetitions must agree with the spec
 }
 
@@ -460,6 +464,108 @@ func genPassTargeted(r *rand.Rand, t core.Tier, kind string) any {
 	return in
 }
 
+// fixMaxTypes: under the Strict policy a NodeClaim cut to MaxInstanceTypes below its pool's minValues is dropped AFTER
+// scheduling and its pods are not retried in the pass (Results.TruncateInstanceTypes; the leaf op c19.price covers that
+// rule): passes keep MaxInstanceTypes at or above every minValues
+func fixMaxTypes(in *PassIn) {
+	if in.BestEffort {
+		return
+	}
+	for _, p := range in.Pools {
+		if p.MinTypes > in.MaxTypes {
+			in.MaxTypes = 600
+		}
+	}
+}
+
+// genPassMinValues — the stream "minvalues": NodePools whose template asks for minValues distinct instance types,
+// frequently MORE than the pool's own catalog (or what its requirements / the available offerings leave of it) can
+// offer, mostly on pools that are not the lowest-weight one; the operator policy is BestEffort in three cases out of
+// five (the pool is then still able to host: minValues is relaxed) and Strict otherwise (the pool is infeasible); pods
+// that pin or exclude instance types so that a pool which meets its minValues by itself does not for the pod.
+func genPassMinValues(r *rand.Rand, t core.Tier) any {
+	in := PassIn{Stream: "minvalues", Pools: []PassPoolJ{}, Pods: []PassPodJ{}, BestEffort: r.IntN(5) < 3}
+	nCat := 1 + r.IntN(5)
+	var catalog []TypeJ
+	for i := 0; i < nCat; i++ {
+		ty := TypeJ{Name: fmt.Sprintf("t%02d", i), CPU: []int{2000, 4000, 8000, 8000}[r.IntN(4)], Pods: 110, Overhead: []int{0, 100}[r.IntN(2)]}
+		dead := r.IntN(8) == 0 // every offering sold out
+		for _, z := range zones {
+			ty.Offerings = append(ty.Offerings, OffJ{Zone: z, Ct: cts[r.IntN(2)], Price: pricePool[r.IntN(len(pricePool))], Avail: !dead && r.IntN(12) != 0})
+		}
+		catalog = append(catalog, ty)
+	}
+	nPools := []int{1, 2, 2, 2, 3, 3, 4}[r.IntN(7)]
+	used := map[string]bool{}
+	for i := 0; i < nPools; i++ {
+		p := PassPoolJ{Labels: map[string]string{}, Taints: []string{}, Reqs: []ReqJ{}}
+		for {
+			p.Name = []string{"a", "ab", "b", "default", "fallback", "preferred", "np-1", "np-2", "z"}[r.IntN(9)]
+			if !used[p.Name] {
+				used[p.Name] = true
+				break
+			}
+		}
+		switch x := r.IntN(10); {
+		case x < 1:
+			p.Weight = nil
+		case x < 3:
+			p.Weight = lo.ToPtr([]int32{10, 50}[r.IntN(2)])
+		default:
+			p.Weight = lo.ToPtr(int32(1 + r.IntN(100)))
+		}
+		genReadiness(r, &p, 15)
+		p.Types = lo.Filter(catalog, func(TypeJ, int) bool { return r.IntN(3) != 0 })
+		if len(p.Types) == 0 && r.IntN(10) != 0 {
+			p.Types = []TypeJ{catalog[r.IntN(len(catalog))]}
+		}
+		if p.Types == nil {
+			p.Types = []TypeJ{}
+		}
+		r.Shuffle(len(p.Types), func(a, b int) { p.Types[a], p.Types[b] = p.Types[b], p.Types[a] })
+		p.MinTypes = []int{0, 0, 1, 2, 2, 3, 3, 4, 5}[r.IntN(9)]
+		if r.IntN(3) == 0 { // around the size of the pool's catalog: one less, exactly, one more
+			p.MinTypes = max(0, len(p.Types)-1+r.IntN(3))
+		}
+		if r.IntN(4) == 0 {
+			p.Reqs = append(p.Reqs, ReqJ{Key: zoneKey, Op: "In", Vals: []string{zones[r.IntN(3)]}})
+		}
+		if r.IntN(6) == 0 && len(p.Types) > 0 {
+			p.Reqs = append(p.Reqs, ReqJ{Key: itKey, Op: "NotIn", Vals: []string{p.Types[r.IntN(len(p.Types))].Name}})
+		}
+		if r.IntN(10) == 0 {
+			p.SoftTaints = append(p.SoftTaints, softKeys[r.IntN(len(softKeys))])
+		}
+		in.Pools = append(in.Pools, p)
+	}
+	nPods := 1 + r.IntN(4)
+	for i := 0; i < nPods; i++ {
+		p := PassPodJ{Name: fmt.Sprintf("pod-%02d", i), CPU: []int{500, 1000, 3000, 5000, 7000}[r.IntN(5)], Sel: []ReqJ{}, Aff: []ReqJ{}, Tol: []string{}}
+		if r.IntN(5) == 0 {
+			p.Sel = append(p.Sel, ReqJ{Key: itKey, Op: "In", Vals: []string{catalog[r.IntN(len(catalog))].Name}})
+		}
+		if r.IntN(4) == 0 {
+			p.Sel = append(p.Sel, ReqJ{Key: zoneKey, Op: "In", Vals: []string{zones[r.IntN(3)]}})
+		}
+		if r.IntN(5) == 0 {
+			vals := lo.Filter(catalog, func(TypeJ, int) bool { return r.IntN(3) == 0 })
+			if len(vals) == 0 {
+				vals = []TypeJ{catalog[0]}
+			}
+			p.Aff = append(p.Aff, ReqJ{Key: itKey, Op: []string{"NotIn", "NotIn", "In"}[r.IntN(3)], Vals: lo.Map(vals, func(t TypeJ, _ int) string { return t.Name })})
+		}
+		in.Pods = append(in.Pods, p)
+	}
+	in.CPURequests = []int{1000, 1000, 2000, 4000, 8000, 0}[r.IntN(6)]
+	in.MaxTypes = []int{1, 2, 3, 5, 600, 600, 600}[r.IntN(7)]
+	fixMaxTypes(&in)
+	in.Reps = 2
+	if t == core.Thorough {
+		in.Reps = 4
+	}
+	return in
+}
+
 func genPass(r *rand.Rand, t core.Tier) any {
 	switch r.IntN(12) {
 	case 0, 1:
@@ -468,6 +574,8 @@ func genPass(r *rand.Rand, t core.Tier) any {
 		return genPassTargeted(r, t, "prefer")
 	case 4, 5:
 		return genPassTargeted(r, t, "byname")
+	case 6, 7:
+		return genPassMinValues(r, t)
 	}
 	in := PassIn{Pools: []PassPoolJ{}, Pods: []PassPodJ{}}
 	nPools := []int{1, 2, 2, 3, 3, 4, 4, 5, 5, 5}[r.IntN(10)]
@@ -529,6 +637,9 @@ func genPass(r *rand.Rand, t core.Tier) any {
 		}
 		if r.IntN(8) == 0 { // a preference, whatever the strictness of the case
 			p.SoftTaints = append(p.SoftTaints, softKeys[r.IntN(len(softKeys))])
+		}
+		if r.IntN(8) == 0 { // flexibility asked of the pool's NodeClaims
+			p.MinTypes = 1 + r.IntN(3)
 		}
 		in.Pools = append(in.Pools, p)
 	}
@@ -611,6 +722,8 @@ func genPass(r *rand.Rand, t core.Tier) any {
 	}
 	in.CPURequests = []int{1000, 2000, 8000, 5000, 500, 1000, 2000, 8000, 16000, 0}[r.IntN(10)]
 	in.MaxTypes = []int{1, 2, 3, 5, 600}[r.IntN(5)]
+	in.BestEffort = r.IntN(3) == 0
+	fixMaxTypes(&in)
 	in.Reps = 3
 	if t == core.Thorough {
 		in.Reps = 8
@@ -647,7 +760,7 @@ func newKube() client.Client {
 }
 
 func runPassOnce(in *PassIn) (*PassRun, error) {
-	ctx := ctxWith(false, in.CPURequests)
+	ctx := ctxWith(in.BestEffort, in.CPURequests)
 	kube := newKube()
 	clk := clocktesting.NewFakeClock(epoch.Add(24 * time.Hour))
 	cp := fakecp.NewCloudProvider()
@@ -665,6 +778,11 @@ func runPassOnce(in *PassIn) (*PassRun, error) {
 		for _, r := range p.Reqs {
 			np.Spec.Template.Spec.Requirements = append(np.Spec.Template.Spec.Requirements, v1.NodeSelectorRequirementWithMinValues{
 				Key: r.Key, Operator: corev1.NodeSelectorOperator(r.Op), Values: r.Vals,
+			})
+		}
+		if p.MinTypes > 0 {
+			np.Spec.Template.Spec.Requirements = append(np.Spec.Template.Spec.Requirements, v1.NodeSelectorRequirementWithMinValues{
+				Key: itKey, Operator: corev1.NodeSelectorOpExists, MinValues: lo.ToPtr(p.MinTypes),
 			})
 		}
 		if len(p.Labels) > 0 {
@@ -896,6 +1014,17 @@ func passLabels(raw json.RawMessage, impl any) []string {
 			}
 		}
 	}
+	if lo.ContainsBy(in.Pools, func(q PassPoolJ) bool { return q.MinTypes > 0 }) {
+		l = append(l, "minvalues:policy="+lo.Ternary(in.BestEffort, "BestEffort", "Strict"))
+	}
+	for i, nm := range order {
+		if q := poolByName[nm]; q.MinTypes > len(q.Types) {
+			l = append(l, "pool-minvalues-above-own-catalog:"+lo.Ternary(in.BestEffort, "BestEffort", "Strict"))
+			if i < len(order)-1 {
+				l = append(l, "pool-minvalues-above-own-catalog-not-last-in-weight-order:"+lo.Ternary(in.BestEffort, "BestEffort", "Strict"))
+			}
+		}
+	}
 	podByName := lo.KeyBy(in.Pods, func(q PassPodJ) string { return q.Name })
 	namesPool := func(q PassPodJ) bool {
 		return lo.ContainsBy(q.Sel, func(s ReqJ) bool { return s.Key == poolKey }) || lo.ContainsBy(q.Aff, func(s ReqJ) bool { return s.Key == poolKey })
@@ -945,6 +1074,15 @@ func passLabels(raw json.RawMessage, impl any) []string {
 				}
 				if idx := lo.IndexOf(order, c.Pool); len(pool.SoftTaints) == 0 && idx > 0 && lo.ContainsBy(order[:idx], func(nm string) bool { return len(poolByName[nm].SoftTaints) > 0 }) {
 					l = append(l, "claim-below-soft-tainted-pool")
+				}
+				if pool.MinTypes > 0 {
+					l = append(l, "claim-in-pool-with-minvalues")
+					if len(c.Types) < pool.MinTypes && in.MaxTypes >= pool.MinTypes {
+						l = append(l, "claim-with-relaxed-minvalues")
+						if len(order) > 0 && c.Pool != order[len(order)-1] {
+							l = append(l, "claim-with-relaxed-minvalues-not-in-last-pool")
+						}
+					}
 				}
 				if namesPool(opener) {
 					l = append(l, "claim-for-pod-constraining-pool-name")
@@ -1023,16 +1161,16 @@ func selfContradictoryCustomKey(in PassIn) bool {
 func passOp() *core.Op {
 	return &core.Op{
 		Name: "c19.pass",
-		Doc:  "whole passes of the real Provisioner (Schedule + CreateNodeClaims on the fake client, fake cloud provider) with 1..5 weighted NodePools (ties, nil weights, static/deleting pools, status conditions written through the real ConditionSet API: Ready True / False / Unknown via either dependent, registration health set or not, or no conditions at all; taints, template labels and requirements, per-pool catalogs with price ties), 1..6 pods without inter-pod constraints, 1/2/5/8 template-evaluation workers, MaxInstanceTypes 1/2/3/5/600; one case in six from the stream zonal (uniform catalog priced independently per zone × capacity type, small pods pinned to different zones / capacity types, MaxInstanceTypes 1..4 below the catalog size: several NodeClaims of one pool start from the same option list and must be ordered and cut independently), one in six from the stream prefer (uniform catalog; PreferNoSchedule taints anywhere in the weight order, mostly not on the lowest-weight pool; pools and pods pinned to zones so that often only soft-tainted pools can host a pod; tolerations per key for every effect / PreferNoSchedule only / none), one in six from the stream byname (pods selecting or excluding NodePools by name through nodeSelector or required affinity In / NotIn / Exists / DoesNotExist on karpenter.sh/nodepool, unknown names); soft taints and name selectors also sprinkled over the general stream; each pass repeated on fresh worlds; observed: NodePool label, pods, instance-type requirement and the own requirement karpenter.sh/nodepool In [...] of every created NodeClaim",
+		Doc:  "whole passes of the real Provisioner (Schedule + CreateNodeClaims on the fake client, fake cloud provider) with 1..5 weighted NodePools (ties, nil weights, static/deleting pools, status conditions written through the real ConditionSet API: Ready True / False / Unknown via either dependent, registration health set or not, or no conditions at all; taints, template labels and requirements, per-pool catalogs with price ties), 1..6 pods without inter-pod constraints, 1/2/5/8 template-evaluation workers, MaxInstanceTypes 1/2/3/5/600; one case in six from the stream zonal (uniform catalog priced independently per zone × capacity type, small pods pinned to different zones / capacity types, MaxInstanceTypes 1..4 below the catalog size: several NodeClaims of one pool start from the same option list and must be ordered and cut independently), one in six from the stream prefer (uniform catalog; PreferNoSchedule taints anywhere in the weight order, mostly not on the lowest-weight pool; pools and pods pinned to zones so that often only soft-tainted pools can host a pod; tolerations per key for every effect / PreferNoSchedule only / none), one in six from the stream byname (pods selecting or excluding NodePools by name through nodeSelector or required affinity In / NotIn / Exists / DoesNotExist on karpenter.sh/nodepool, unknown names); one in six from the stream minvalues (templates asking for minValues distinct instance types, often more than the pool's own catalog / requirements / available offerings leave, operator policy BestEffort in three cases of five and Strict otherwise, pods pinning or excluding instance types); soft taints, name selectors, minValues and the BestEffort policy also sprinkled over the general stream; each pass repeated on fresh worlds; observed: NodePool label, pods, instance-type requirement and the own requirement karpenter.sh/nodepool In [...] of every created NodeClaim",
 		N:    n(700, 3000),
 		Gen:  genPass,
 		Impl: implPass,
-		Rule: "non-trivial = at least one NodeClaim was created and (two pools tie in weight, or a claim went to a pool other than the first in weight order, or a claim's instance types were cut to MaxInstanceTypes, or a claim was opened against a PreferNoSchedule taint, or for a pod that constrains the NodePool name)",
+		Rule: "non-trivial = at least one NodeClaim was created and (two pools tie in weight, or a claim went to a pool other than the first in weight order, or a claim's instance types were cut to MaxInstanceTypes, or a claim was opened against a PreferNoSchedule taint, or for a pod that constrains the NodePool name, or in a pool that asks for minValues)",
 		Nontrivial: func(raw json.RawMessage, impl any) bool {
 			ls := passLabels(raw, impl)
 			has := func(s string) bool { return lo.Contains(ls, s) }
 			return !has("claims=0") && (has("weight-tie") || has("fallback-to-lower-pool") || has("truncated-or-exact") ||
-				has("claim-opened-against-taint-preference") || has("claim-for-pod-constraining-pool-name"))
+				has("claim-opened-against-taint-preference") || has("claim-for-pod-constraining-pool-name") || has("claim-in-pool-with-minvalues"))
 		},
 		Labels: passLabels,
 		Signature: func(raw json.RawMessage, _ any) string {
